@@ -28,8 +28,6 @@ BUILTIN = [
     ("c10-timeout-100s", "C10", PKG + "utils.py", "stdout, stderr = process.communicate(timeout=1)", "stdout, stderr = process.communicate(timeout=100)"),
     ("c10-narrow-except", "C10", PKG + "compiler.py", "        except Exception as e:\n            if self._raise_exceptions:\n                raise e\n            import traceback",
      "        except (ValueError, TypeError, KeyError, AttributeError, AssertionError) as e:\n            if self._raise_exceptions:\n                raise e\n            import traceback"),
-    ("c11-output-mode-sticky", "C11", PKG + "compiler.py", "    set_output_mode(OutputMode.COMPACT if options.compact else OutputMode.VERBOSE)",
-     "    if options.compact:\n        set_output_mode(OutputMode.COMPACT)"),
     ("c11-cache-key-call-text", "C11", PKG + "utils.py", "    if code in _eval_constexpr_cache:\n        return _eval_constexpr_cache[code]",
      "    code_key = call_node.as_string()\n    if code_key in _eval_constexpr_cache:\n        return _eval_constexpr_cache[code_key]"),
     ("c14-no-flush", "C14", PKG + "mod_daemon.py", "print(encoded, flush=True, file=_stdout)", "print(encoded, file=_stdout)"),
@@ -39,14 +37,14 @@ BUILTIN = [
     ("c14-exit-on-bad-json", "C14", PKG + "mod_daemon.py", "    except json.JSONDecodeError:\n        response = {\"error\": {\"message\": \"Invalid JSON format\"}}",
      "    except json.JSONDecodeError:\n        response = {\"error\": {\"message\": \"Invalid JSON format\"}}\n        raise"),
     ("c14-no-stdout-redirect", "C14", PKG + "mod_daemon.py", "_stdout = sys.stdout\nsys.stdout = sys.stderr\n", "_stdout = sys.stdout\n"),
-    ("c14-helper-inherits-stdout", "C14", PKG + "utils.py", "        stdout=subprocess.PIPE,\n        stderr=subprocess.PIPE,", "        stderr=subprocess.PIPE,"),
+    ("c10-no-kill-after-timeout", "C10", PKG + "utils.py", "        _stop_constexpr_helper(process)\n        raise CompilerError(\n            f\"Timeout", "        raise CompilerError(\n            f\"Timeout"),
+    ("c10-kill-without-bounded-wait", "C10", PKG + "utils.py", "    try:\n        process.communicate(timeout=1)\n    except subprocess.TimeoutExpired:", "    try:\n        process.communicate()\n    except subprocess.TimeoutExpired:"),
+    ("c14-helper-inherits-stdin", "C14", PKG + "utils.py", "        stdin=subprocess.DEVNULL,\n", ""),
     ("c14-traceback-to-stderr", "C14", PKG + "mod_daemon.py", "        stack_trace = traceback.format_exc()\n        response = {",
      "        stack_trace = traceback.format_exc()\n        print(stack_trace * 3, file=sys.stderr)\n        response = {"),
 ]
 # reverts of the repairs recorded in known_findings.json: (name, property, commit)
 REVERTS = [
-    ("c10-revert-kill-after-timeout", "C10", "62ef232"),
-    ("c14-revert-stdin-devnull", "C14", "ee12057"),
     ("c11-revert-options-copy", "C11", "d0c576c"),
     ("c10-revert-pragma-field-filter", "C10", "43974a1"),
     ("c10-revert-num-bytes", "C10", "6839fa3"),
@@ -105,7 +103,7 @@ def tests_pass(d):
     vsrc = os.path.join(REPO, "src", "stationeers_pytrapic", "_version.py")
     if os.path.exists(vsrc):
         shutil.copy(vsrc, os.path.join(d, "src", "stationeers_pytrapic", "_version.py"))
-    for attempt in range(2):
+    for attempt in range(3):
         r = subprocess.run(["/venv/bin/python", "-m", "pytest", "-q", "-p", "no:cacheprovider", "--timeout=900", "-x", "test"],
                            cwd=d, env=env, capture_output=True, text=True)
         if r.returncode == 0:
@@ -144,20 +142,45 @@ def run_one(m, tier, with_tests):
         shutil.rmtree(d, ignore_errors=True)
 
 
+def tests_only(ms):
+    """run only the repository's suite against every mutant (on an otherwise idle machine: three of its tests depend on
+    a real 1 s timeout); the outcome is recorded in out/sensitivity_tests.json"""
+    res = {}
+    for m in ms:
+        d = scratch_copy()
+        try:
+            why = apply(m, d)
+            if why:
+                res[m["name"]] = {"applies": False, "detail": why}
+            else:
+                ok, tail = tests_pass(d)
+                res[m["name"]] = {"applies": True, "tests_pass": ok, "detail": tail[-200:]}
+        finally:
+            shutil.rmtree(d, ignore_errors=True)
+        log("  %-48s %s" % (m["name"], res[m["name"]]))
+    os.makedirs(os.path.join(VERIF, "sensitivity"), exist_ok=True)
+    with open(os.path.join(VERIF, "sensitivity", "tests.json"), "w") as f:
+        json.dump(res, f, indent=1)
+    return 0
+
+
 def main(names, tier):
     with_tests = os.environ.get("VERIF_SENS_TESTS", "0") == "1"
     ms = mutants()
     if names:
         ms = [m for m in ms if any(n in m["name"] for n in names)]
+    if os.environ.get("VERIF_SENS_TESTS") == "only":
+        return tests_only(ms)
     log("sensitivity: %d mutants, tier=%s, repository tests %s" % (len(ms), tier, "on" if with_tests else "off"))
     results = []
     for m in ms:
         rec = run_one(m, tier, with_tests)
         results.append(rec)
         log("  %-48s %s %-14s %s %s" % (rec["name"], rec["property"], rec["status"], ",".join(rec.get("classes", [])), rec.get("detail", "")[:160]))
-    outdir = os.path.join(VERIF, "out")
+    outdir = os.path.join(VERIF, "sensitivity")
     os.makedirs(outdir, exist_ok=True)
-    with open(os.path.join(outdir, "sensitivity.json"), "w") as f:
+    name = "results.json" if not names else "results-partial.json"
+    with open(os.path.join(outdir, name), "w") as f:
         json.dump(results, f, indent=1)
     n_c = sum(1 for r in results if r["status"] == "caught")
     log("sensitivity: %d of %d mutants caught; %d missed; %d other" % (
